@@ -250,6 +250,7 @@ class Ref:
             return None
         if sub == "close":
             del self.curs[c]
+            getattr(self, "pending", {}).pop(c, None)
             return "cur ok"
         if sub == "to":
             op = w[3]
